@@ -72,6 +72,13 @@ def _task(args):
     cap = opts.get("cap_s")
     capped = False
     last = None
+    reduced = None
+    lim = opts.get("max_base_n1_limit")
+    if lim and kmax >= 2:
+        n1 = sum(1 for _ in VSE(mm).enum_max(ref(name), 1))
+        if n1 > lim:
+            reduced = (name, kmax, 1, n1)
+            kmax = 1
     for basept, c, j in values_for_root(vse, name, kmin, kmax):
         key = hash(canon(j))
         if key in seen:
@@ -109,7 +116,7 @@ def _task(args):
     return {
         "root": name, "evals": evals, "values": len(seen), "distinct_nt": distinct_nt,
         "states": vse.states, "transitions": vse.transitions, "viols": list(bysig.values()),
-        "outcomes": outcomes, "samples": samples, "capped": capped, "wall": time.time() - t0,
+        "outcomes": outcomes, "samples": samples, "capped": capped, "wall": time.time() - t0, "reduced": reduced,
     }
 
 
@@ -126,7 +133,7 @@ def explore_roots(ctx, judge, roots, kmin, kmax, opts=None, big_first=None):
     if big_first:
         tasks.sort(key=lambda a: -big_first.get(a[2], 0))
     agg = {"evals": 0, "values": 0, "distinct_nt": 0, "states": 0, "transitions": 0,
-           "outcomes": {}, "samples": [], "capped": [], "roots": 0, "per_root_max": ("", 0)}
+           "outcomes": {}, "samples": [], "capped": [], "roots": 0, "per_root_max": ("", 0), "slowest": [], "reduced": []}
     viols = []
     if ctx.workers > 1 and len(tasks) > 1:
         with mp.get_context("fork").Pool(ctx.workers) as pool:
@@ -142,9 +149,12 @@ def explore_roots(ctx, judge, roots, kmin, kmax, opts=None, big_first=None):
             agg["outcomes"][oc] = agg["outcomes"].get(oc, 0) + n
         if r["capped"]:
             agg["capped"].append(r["root"])
+        if r["reduced"]:
+            agg["reduced"].append(r["reduced"])
         if r["values"] > agg["per_root_max"][1]:
             agg["per_root_max"] = (r["root"], r["values"])
         viols += r["viols"]
+    agg["slowest"] = [(r["root"], round(r["wall"], 1), r["values"]) for r in sorted(results, key=lambda r: -r["wall"])[:8]]
     # samples: first/last of three roots, seed-independent choice
     for r in results[:2] + results[-1:]:
         agg["samples"] += r["samples"]
